@@ -360,7 +360,25 @@ pub fn run(out_dir: &str, tier: &str, seed: u64, only: Option<String>, search_n:
             "fd": {"states": fd_n, "failures": fd_fail},
         }));
     }
-    json!({"property": "C01", "tier": tier, "seed": seed, "prec": prec, "configs": results})
+    // quick tier: the configurations left to the thorough tier (large programs) still get the finite-difference oracle on
+    // the public API, so that a change confined to one of them is not invisible to the per-change check
+    let mut oracle_only = Vec::new();
+    if !full && only.is_none() {
+        for c in configs::all(true).into_iter().chain(configs::literal()).filter(|c| !c.core) {
+            let mut rng = Rng(seed ^ trace::fxhash(&c.name) ^ 0xC01);
+            let mut fd_fail = Vec::new();
+            let n = k_fd.min(4);
+            for _ in 0..n {
+                let s = configs::sample_state(&c, &mut rng);
+                let f = fd_search(&c.model, &s, c.special_t.contains(&s.t));
+                if fd_fail.len() < 5 {
+                    fd_fail.extend(f.into_iter().take(3));
+                }
+            }
+            oracle_only.push(json!({"name": c.name, "fd": {"states": n, "failures": fd_fail}}));
+        }
+    }
+    json!({"property": "C01", "tier": tier, "seed": seed, "prec": prec, "configs": results, "oracle_only": oracle_only})
 }
 
 fn main() {
